@@ -898,7 +898,7 @@ def record(rng, nhosts=3, max_events=14, max_retries=3, max_epoch=2, p_bad=0.25,
                 ops += [("RefreshTask", None)] * 3
             if (h.epoch < max_epoch and f._paging_state is not None and f._final_exception is None
                     and f._final_result is not ccluster._NOT_SET and f._final_result
-                    and not h._registered() and not h._retry_tasks()):
+                    and not h._registered() and not h._retry_tasks() and not h._refresh_tasks()):
                 ops += [("StartNextPage", None)] * 3
             if not ops:
                 break
